@@ -301,7 +301,11 @@ def dag_obs(circuit, incompat_edges=None):
     edges = [{"u": _nid(u), "v": _nid(v), "key": str(k), "rt": str(d.get("reg_type")), "r": int(d.get("reg"))}
              for u, v, k, d in dag.edges(keys=True, data=True)]
     node_dict = {str(k): [_nid(x) for x in v] for k, v in circuit.node_dict.items()}
-    edge_dict = {str(k): [[_nid(e[0]), _nid(e[1]), str(e[2])] for e in v] for k, v in circuit.edge_dict.items()}
+    def e3(e):
+        # an index entry that is not a (u, v, key) triple is shown as it is, padded: the spec then finds no such edge
+        e = tuple(e) if isinstance(e, (tuple, list)) else (e,)
+        return [_nid(e[0]) if len(e) > 0 else "?", _nid(e[1]) if len(e) > 1 else "?", str(e[2]) if len(e) > 2 else "?"]
+    edge_dict = {str(k): [e3(e) for e in v] for k, v in circuit.edge_dict.items()}
     regs = circuit.register
     o = {"err": "", "nodes": nodes, "edges": edges, "node_dict": node_dict, "edge_dict": edge_dict,
          "regs": {"e": len(regs["e"]), "p": len(regs["p"]), "c": len(regs["c"])},
